@@ -148,6 +148,11 @@ class Contract:
     def exc_proof(self, p, a, exc, case):
         p.qed()
 
+    def opaque_calls(self):
+        """{callable: handler(I, args, kwargs, node)}: calls the verified body makes that are treated as opaque,
+        effect-recording operations (they append to I.events)."""
+        return {}
+
     def side_proof(self, p, a, kind, name, case):
         """Proof script for a side obligation of the path (callee precondition, loop entry / maintenance)."""
         p.qed()
@@ -241,13 +246,13 @@ class Proof:
     """A proof script builder.  Every step that introduces a fact emits the obligation that justifies it."""
 
     def __init__(self, name, assumptions, goal, sink, meta=None):
-        self.name, self.assumptions, self.goal, self.sink = name, list(assumptions), goal, sink
+        self.name, self.assumptions, self.goal, self.sink = name, list(assumptions), T.zbool(goal), sink
         self.meta = meta or {}
         self.closed = False
 
     def _emit(self, suffix, goal, kind):
         nm = self.name + ('.' + suffix if suffix else '')
-        self.sink.append(Obligation(nm, list(self.assumptions), goal, kind, dict(self.meta)))
+        self.sink.append(Obligation(nm, list(self.assumptions), T.zbool(goal), kind, dict(self.meta)))
 
     def have(self, label, fact):
         """Prove `fact` from the current assumptions, then use it."""
@@ -406,6 +411,51 @@ def _default_script(p, **kw):
 # verification of one contract
 
 
+def verify_inherited(con, registry, config, rep):
+    """A method the class does *not* override: its behaviour is the base class' library model."""
+    rep.source = {'file': '(inherited from %s)' % con.inherited, 'qualname': con.target.split('::')[1], 'line': 0,
+                  'sha256': '', 'lines': 0}
+    for case in con.active_cases():
+        I = Interp(contracts=registry, config=config or {})
+        I.active = con
+        cx = Cx()
+        bound = con.params(cx, case)
+        I.ghost_keys = list(getattr(con, 'ghost_keys', []))
+        a0 = Args(bound, cx.ghosts)
+        pre = con.requires(a0)
+
+        def thunk():
+            I.assume(pre)
+            memo = {}
+            args = {k: clone_value(v, memo) for k, v in bound.items()}
+            pa = Args(args, cx.ghosts)
+            con.cur = pa
+            try:
+                r = con.run_inherited(I, dict(args))
+                return 'return', (r, pa)
+            except RaiseSig as rs:
+                return 'raise', (rs.exc, pa)
+        results = I.explore(thunk)
+        tag = con.target.split('::')[1] + (('[' + case + ']') if case else '')
+        for idx, res in enumerate(results):
+            pname = '%s.p%d' % (tag, idx)
+            val, a = res.value
+            rep.paths.append({'name': pname, 'kind': res.kind if res.kind != 'raise' else 'raise:' + val.cls.__name__,
+                              'pc': res.pc, 'value': val, 'args': a, 'case': case, 'contract': con})
+            if res.kind == 'return':
+                for nm, g in con.ensures(a, val).items():
+                    rep.canaries.append(('%s.%s' % (pname, nm), list(res.pc), g))
+                    p = Proof('%s.%s' % (pname, nm), res.pc, g, rep.obligations, {'kind': 'post', 'path': pname})
+                    con.proof(p, a, val, nm, case)
+                    if not p.closed:
+                        p.qed()
+            elif res.kind == 'raise':
+                conds = [T.zbool(c) for exc, c in con.raises(a) if issubclass(val.cls, exc)]
+                Proof('%s.raises.%s' % (pname, val.cls.__name__), res.pc, T.OR(*conds), rep.obligations,
+                      {'kind': 'exc', 'path': pname}).qed()
+    return rep
+
+
 class VerifyReport:
     def __init__(self, target):
         self.target = target
@@ -420,6 +470,8 @@ class VerifyReport:
 def verify_contract(con, registry, config=None):
     """Generate all obligations for `con` from the current source of its target."""
     rep = VerifyReport(con.target)
+    if getattr(con, 'inherited', None):
+        return verify_inherited(con, registry, config, rep)
     fnode, clsname, qual, path = fn_source(con.fn)
     import ast as _ast
     import hashlib
@@ -435,6 +487,7 @@ def verify_contract(con, registry, config=None):
         except OutOfSubset as e:
             rep.error = 'out-of-subset: %s' % e
             return rep
+        I.ghost_keys = list(getattr(con, 'ghost_keys', []))
         a = Args(bound, cx.ghosts)
         con.cur = a
         pre = con.requires(a)
@@ -464,9 +517,24 @@ def verify_contract(con, registry, config=None):
             con.cur = pa
             I.path_args = pa
             try:
-                r = I.call_closure(clo, [], dict(args), None, top=True)
+                if getattr(con, 'inherited', None):
+                    r = con.run_inherited(I, dict(args))
+                else:
+                    kw = dict(args)
+                    pos = []
+                    extra = kw.pop('*args', None)
+                    if extra is not None:
+                        for prm in clo.node.args.posonlyargs + clo.node.args.args:
+                            if prm.arg in kw:
+                                pos.append(kw.pop(prm.arg))
+                            else:
+                                break
+                        pos += list(extra)
+                    r = I.call_closure(clo, pos, kw, None, top=True)
+                pa.events = list(I.events)
                 return 'return', (r, pa)
             except RaiseSig as rs:
+                pa.events = list(I.events)
                 return 'raise', (rs.exc, pa)
         try:
             results = I.explore(thunk)
